@@ -706,6 +706,8 @@ static void prepare_vfork(struct mcount_thread_data *mtdp, struct mcount_ret_sta
 	mcount_memcpy4(&vfork_rstack, rstack, sizeof(*rstack));
 	/* it will be force flushed */
 	vfork_rstack.flags |= MCOUNT_FL_WRITTEN;
+	/* the copy is for the parent: it must not set up a child again when it is restored */
+	vfork_rstack.flags &= ~MCOUNT_FL_VFORK;
 }
 
 /* this function will be called in child */
